@@ -544,6 +544,19 @@ func main() {
 		runCase(r, sub, genBig(rng, i))
 		r.Count("size-case")
 	}
+	// the same far beyond the sizes the line-by-line model can replay (Go oracle after every phase)
+	sizeNs := []int{32767, 32768, 65535, 65536, 65537, 70000}
+	if r.Scale > 1 {
+		sizeNs = append(sizeNs, 1<<20, 1<<20+1)
+	}
+	for i, n := range sizeNs {
+		for _, c := range []string{"wg", "counter", "dset", "sorted"} {
+			if (c == "sorted" && i%3 != int(r.Seed%3)) || (c == "dset" && i%2 == 0) || (n > 70000 && (c == "sorted" || c == "dset")) {
+				continue // deleteSorted shifts the tail: two sizes per run; a million subscriptions / sorted elements are too slow
+			}
+			runCase(r, uint64(n), []string{fmt.Sprintf("stress sizes %s %d %d", c, n, r.Seed+uint64(i))})
+		}
+	}
 	kinds := []string{"dvar", "dvar", "inherit", "dset", "sub", "counter", "sorted", "sorted", "sortedrace", "evict", "evictsame", "wg"}
 	nstress := 150 * r.Scale
 	if r.Scale > 1 {
